@@ -74,15 +74,40 @@ class Unit:
         parts = [head]
         origin_lines = []
         for h in list(extra_members):
-            x, y = s.item_span(header_regex(h), bo + 1, b - 1)
-            parts.append(s.text[x:y])
-            origin_lines.append('%d-%d' % (s.line_of(x), s.line_of(y - 1)))
+            # every member whose header matches (e.g. the two cfg-gated MAX_SIZE constants)
+            pos = bo + 1
+            found = 0
+            while True:
+                ms = re.compile(header_regex(h)).search(s.code, pos, b - 1)
+                if not ms:
+                    break
+                x, y = s.item_span(header_regex(h), ms.start(), b - 1) if False else self._member_span(s, ms.start())
+                parts.append(s.text[x:y])
+                origin_lines.append('%d-%d' % (s.line_of(x), s.line_of(y - 1)))
+                pos = y
+                found += 1
+            if not found:
+                raise ExtractError('%s: member not found: %s' % (rel, h))
         for fn in fn_names:
             x, y = s.item_span(r'(?<![A-Za-z0-9_])fn\s+' + re.escape(fn) + r'(?![A-Za-z0-9_])', bo + 1, b - 1)
             parts.append(s.text[x:y])
             origin_lines.append('%s@%d-%d' % (fn, s.line_of(x), s.line_of(y - 1)))
         parts.append('}')
         self.chunks.append(('code', '%s:[%s] %s' % (rel, impl_header, ','.join(origin_lines)), '\n'.join(parts)))
+
+    @staticmethod
+    def _member_span(s, pos):
+        bo = s.body_open(pos)
+        end = (s.match_close(bo) + 1) if s.code[bo] == '{' else bo + 1
+        start = s.text.rfind('\n', 0, pos) + 1
+        while start > 0:
+            prev_start = s.text.rfind('\n', 0, start - 1) + 1
+            line = s.text[prev_start:start - 1].strip()
+            if line.startswith('#[') or line.startswith('//'):
+                start = prev_start
+            else:
+                break
+        return start, end
 
     # --------------------------------------------------------------- assemble
     def assemble(self):
